@@ -13,6 +13,7 @@
    Invalid blocks, duplicates, forks, repeated and failing reorganisations are
    all covered.  [Inv c U st] = exists lcr (the longest chain, tip first), InvW c U st lcr. *)
 From Saito Require Import Base Chain ChainBasics ChainInv ChainWind ChainAdd ChainProofs ChainCheck.
+From Saito Require Import PurgeInv PurgeWind PurgeAdd PurgeProofs PurgeCheck ChainPurge.
 
 (* ---- ledger algebra ---- *)
 Theorem C03_undo_apply : forall u b,
@@ -152,3 +153,93 @@ Print Assumptions C03_inv_meaning.
 Print Assumptions C03_ledger_is_replay.
 Print Assumptions C03_last_is_tip.
 Print Assumptions C03_history_check_sound.
+
+(* ================================================================================== *)
+(* ALL BLOCK IDS (purge regime): model/ChainPurge.v = model/Chain.v + the purge that     *)
+(* update_genesis_period / delete_blocks perform once the tip is beyond 2 * gp.          *)
+(* State: pstate = (core : Chain.state, gid = genesis_block_id).  Universe [puniv]: as   *)
+(* univ_ok without the bound id <= 2 gp, plus: a slip key identifies the id of the block *)
+(* that created it, and a block only spends slips created at a lower id.                 *)
+(* Hypothesis on each delivery, [step_ok c U ps b] (decidable: step_ok_b):               *)
+(*   conn    - b is the first block (a root), or the walk from b through stored           *)
+(*             off-chain blocks reaches a stored chain block (with ids <= 2 gp this is    *)
+(*             "the parent is stored"; after a purge a stored fork may have lost its fork  *)
+(*             point: C05p_disconnected_fork_refuted);                                     *)
+(*   no_late - not: the candidate chain contains an invalid block and, before it, a valid *)
+(*             block above both last_block_id and 2 gp (C04p_late_failure_*_refuted).      *)
+(* [PInvW c U ps lcs lcp]: lcs = stored part of the longest chain (tip first), lcp = its   *)
+(* purged part (ghost); lcs ++ lcp is the whole chain down to its root.                    *)
+(* ================================================================================== *)
+Theorem C03p_inv_init : forall c U, PInvW c U (pinit c) [] [].
+Proof. exact pinv_init. Qed.
+
+(* totality: no panic site is reachable (in particular blocks.get(hash).unwrap() of delete_block) *)
+Theorem C03p_add_block_total : forall c U, puniv c U -> valid_wf U ->
+  forall ps b, PInvQ c U ps -> step_ok c U ps b -> exists ps' r, add_block_p c ps b = Ok (ps', r).
+Proof. exact add_block_p_total. Qed.
+
+Theorem C03p_inv_step : forall c U, puniv c U -> valid_wf U ->
+  forall ps b ps' r,
+  PInvQ c U ps -> step_ok c U ps b -> add_block_p c ps b = Ok (ps', r) -> PInvQ c U ps'.
+Proof. exact pinv_step. Qed.
+
+Theorem C03p_deliver_inv : forall c U, puniv c U -> valid_wf U ->
+  forall bs ps, PInvQ c U ps -> steps_ok c U ps bs ->
+  exists ps', deliver_p c ps bs = Ok ps' /\ PInvQ c U ps'.
+Proof. exact deliver_p_inv. Qed.
+
+(* what the invariant says.  Ledger: FULL statement (refuted, C03p_ledger_exact_refuted):
+     forall k, In k (utxo st) <-> In k (replay (lcs ++ lcp)) /\ lc_outs lcs k
+   i.e. "the spendable set is the replay of the whole chain from its root, restricted to the
+   slips created by blocks that are still stored".  PARTIAL (proved): the two inclusions
+     utxo st  is contained in  replay (lcs ++ lcp),  and
+     replay (lcs ++ lcp) restricted to slips created by stored chain blocks  is contained in  utxo st;
+   missing: utxo st contains no slip created by a purged block. *)
+Theorem C03p_inv_meaning_partial : forall c U, puniv c U ->
+  forall ps lcs lcp, PInvW c U ps lcs lcp ->
+    let st := core ps in
+    chain_ok U (lcs ++ lcp)
+    /\ (forall b, In b lcs -> get_block st (b_hash b) = Some (mkSB b true))
+    /\ (forall b, In b lcp -> get_block st (b_hash b) = None)
+    /\ (forall h sb, get_block st h = Some sb -> s_lc sb = true -> In h (hashes lcs))
+    /\ (forall k, In k (utxo st) -> In k (replay (lcs ++ lcp)))
+    /\ (forall k, In k (replay (lcs ++ lcp)) -> lc_outs lcs k -> In k (utxo st))
+    /\ (forall id h, lc_hash_at c (ring st) id = Some h <-> chain_index lcs id h)
+    /\ latest_id st = Ok (tip_id lcs) /\ latest_hash st = Ok (tip_hash lcs)
+    /\ last_id st = tip_id lcs /\ last_hash st = tip_hash lcs
+    /\ gid ps = (if 2 * gp_of c + 1 <=? tip_id lcs then tip_id lcs - gp_of c else 0)
+    /\ (forall h sb, get_block st h = Some sb -> tip_id lcs < b_id (s_b sb) + 2 * gp_of c)
+    /\ (forall y, In y lcp -> b_id y + 2 * gp_of c <= tip_id lcs)
+    /\ (forall h sb, get_block st h = Some sb ->
+          In (h, b_id (s_b sb)) (ri_ent (item_at (ring st) (slot c (b_id (s_b sb))))))
+    /\ (forall p e, (p < nslots c)%nat -> In e (ri_ent (item_at (ring st) p)) ->
+          exists sb, get_block st (fst e) = Some sb /\ b_id (s_b sb) = snd e /\ slot c (snd e) = p)
+    /\ (forall p, (p < nslots c)%nat -> NoDup (map fst (ri_ent (item_at (ring st) p)))).
+Proof. exact pinv_meaning. Qed.
+
+(* REFUTED: exact ledger after a purge.  gp = 2; block 4 spends slip 20 of block 2; block 2 is
+   purged when the tip reaches 6; a reorganisation from block 3 (still stored) unwinds 4 and
+   puts slip 20 back, although no stored block created it; it stays spendable for ever.
+   Every delivery of this history satisfies step_ok (phistory_check) *)
+Lemma C03p_ledger_exact_refuted :
+  exists ps,
+    phistory_check pw_cfg (pw_main ++ pw_deep) (hashes (pw_main ++ pw_deep)) = true
+    /\ deliver_p pw_cfg (pinit pw_cfg) (pw_main ++ pw_deep) = Ok ps
+    /\ latest_hash (core ps) = Ok 17
+    /\ utxo (core ps) = [20; 41; 51; 61; 71]
+    /\ get_block (core ps) 2 = None
+    /\ forallb (fun hb => negb (memb 20 (blk_outs (s_b (snd hb))))) (blocks (core ps)) = true.
+Proof. exact purge_resurrected_output_witness. Qed.
+
+Theorem C03p_history_check_sound : forall c U order, phistory_check c U order = true ->
+  puniv c U /\ valid_wf U
+  /\ exists bs, lookup U order = Some bs /\ (forall b, In b bs -> In b U) /\ steps_ok c U (pinit c) bs.
+Proof. exact phistory_check_ok. Qed.
+
+Print Assumptions C03p_inv_init.
+Print Assumptions C03p_add_block_total.
+Print Assumptions C03p_inv_step.
+Print Assumptions C03p_deliver_inv.
+Print Assumptions C03p_inv_meaning_partial.
+Print Assumptions C03p_ledger_exact_refuted.
+Print Assumptions C03p_history_check_sound.
